@@ -723,7 +723,7 @@ func (server *Server) registerCoreExecutors() {
 			return nil, err
 		}
 
-		msg, err := server.userCommandHandler.ZRange(conn, key, start, stop, opt)
+		msg, err := server.userCommandHandler.ZRange(conn, key, ^stop, ^start, opt)
 		if err != nil {
 			return msg, err
 		}
